@@ -392,6 +392,60 @@ theorem processGroup_sound (conf : Pol → Pol → Bool) (g : List Pol) (inv : L
         · exact Or.inr ⟨i, List.mem_cons_self, j, List.mem_cons_of_mem _ hj, e, c⟩
       · exact Or.inr ⟨a, List.mem_cons_of_mem _ ha, b, List.mem_cons_of_mem _ hb, e, c⟩
 
+/-! ### the declarative specification of the losers (greedy by age) and its equivalence with the code's loops -/
+
+/-- SOUND AND COMPLETE: for one (sorted) group with distinct policies, the ids that `markConflictedPolicies`' nested
+loops mark are exactly the policies dropped by the greedy-by-age walk. In particular every policy that conflicts
+with an older SURVIVOR is marked (completeness), and nobody else (soundness). -/
+theorem processGroup_is_greedy (conf : Pol → Pol → Bool) (g : List Pol)
+    (hpw : List.Pairwise (fun a b => a.id ≠ b.id) g) (x : Nat) :
+    x ∈ processGroup conf g [] ↔ x ∈ (dropped conf [] g).map (·.id) := by
+  have := processGroup_greedy conf g [] [] hpw (by intro j _; simp) x
+  simpa using this
+
+/-- the same, position by position: the policy `p` of the group `pre ++ p :: post` is Conflicted iff some policy
+that SURVIVED among the older ones (`pre`) conflicts with it. -/
+theorem conflicted_iff_older_survivor_conflicts (conf : Pol → Pol → Bool) (pre post : List Pol) (p : Pol)
+    (hpw : List.Pairwise (fun a b => a.id ≠ b.id) (pre ++ p :: post)) :
+    p.id ∈ processGroup conf (pre ++ p :: post) [] ↔ (survivors conf [] pre).any (fun q => conf q p) = true := by
+  have hmem : p ∈ pre ++ p :: post := by simp
+  have hsplit := List.pairwise_append.mp hpw
+  have hpre : p ∉ pre := fun h => hsplit.2.2 p h p List.mem_cons_self rfl
+  have hpost : p ∉ post := fun h => (List.pairwise_cons.mp hsplit.2.1).1 p h rfl
+  rw [processGroup_is_greedy conf _ hpw, ← mem_dropped_iff conf p post hpost pre [] hpre]
+  constructor
+  · intro h
+    obtain ⟨q, hq, e⟩ := List.mem_map.mp h
+    have : q = p := pairwise_ids_inj _ hpw q (dropped_sub conf _ _ q hq) p hmem e
+    rw [this] at hq; exact hq
+  · intro h; exact List.mem_map.mpr ⟨p, h, rfl⟩
+
+/-- for single-target policies the whole of `markConflictedPolicies` is the greedy specification of each policy's own
+group, whatever the iteration orders -/
+theorem single_target_conflicted_iff_greedy (conf : Pol → Pol → Bool) (pols : List Pol) (keys : List (Nat × Nat))
+    (hk : keys.Nodup) (hpw : List.Pairwise (fun a b => a.id ≠ b.id) pols)
+    (single : ∀ p ∈ pols, p.valid = true → p.targets.length ≤ 1)
+    (k : Nat × Nat) (hkm : k ∈ keys) (p : Pol) (hp : p ∈ groupOf pols k) :
+    p.id ∈ markConflicted conf keys pols ↔ p.id ∈ (dropped conf [] (groupOf pols k)).map (·.id) := by
+  have hid : ∀ a ∈ pols, ∀ b ∈ pols, a.id = b.id → a = b := pairwise_ids_inj pols hpw
+  have hgpw : List.Pairwise (fun a b => a.id ≠ b.id) (groupOf pols k) := by
+    unfold groupOf
+    refine ((sortBy_perm Pol.md _).pairwise_iff (fun h => fun e => h e.symm)).mpr ?_
+    exact hpw.sublist List.filter_sublist
+  rw [markConflicted_eq_runGroups,
+    runGroups_member conf _ [] (groupOf pols k) p.id (groups_disjoint pols keys hid single hk)
+      (List.mem_map.mpr ⟨k, hkm, rfl⟩) (List.mem_map.mpr ⟨p, hp, rfl⟩)]
+  exact processGroup_is_greedy conf _ hgpw p.id
+
+/-- four policies on one target with interleaved conflicts (A–C, B–D): C and D lose, A and B survive -/
+def iA : Pol := ⟨0, ⟨1, [100], [97]⟩, 1, [9], 0b01, true⟩
+def iB : Pol := ⟨1, ⟨2, [100], [98]⟩, 1, [9], 0b10, true⟩
+def iC : Pol := ⟨2, ⟨3, [100], [99]⟩, 1, [9], 0b01, true⟩
+def iD : Pol := ⟨3, ⟨4, [100], [100]⟩, 1, [9], 0b10, true⟩
+example : markConflicted maskConflicts [(1, 9)] [iD, iB, iC, iA] = [3, 2] := by decide
+example : (dropped maskConflicts [] [iA, iB, iC, iD]).map (·.id) = [2, 3] := by decide
+example : survivors maskConflicts [] [iA, iB, iC, iD] = [iA, iB] := by decide
+
 /-- the candidate repair does not have a `possibles` order at all and is invariant under permutation
 of the policy map -/
 theorem fixed_perm_invariant (conf : Pol → Pol → Bool) (pols pols' : List Pol) (hp : pols.Perm pols')
